@@ -436,7 +436,7 @@ class ConcBuilder:
         self.objects[name] = o
         return o
 
-    def obj(self, name, cls, closed=True, **fields):
+    def obj(self, name, cls, sealed=True, **fields):
         if cls.startswith('iface:'):
             o = Stub(name, cls, self.source, self.reg, fields)
         else:
